@@ -2,8 +2,8 @@
 
 * the TEXTS of the name-grammar regexes (`TYPE_REGEX`, `TYPE_21_REGEX` in
   stix2/properties.py, `PREFIX_21_REGEX` in stix2/utils.py, and -- when a
-  module-level `PROPERTY_NAME_REGEX` exists in stix2/registration.py -- that one
-  too), read from the `ast` of the `re.compile(<string literal>)` calls;
+  module-level `PROPERTY_NAME_REGEX` / `EXTENSION_DEFINITION_ID_REGEX` exists in
+  stix2/registration.py -- those too), read from the `ast` of the `re.compile(<string literal>)` calls;
 * the shape of `properties._validate_type`: which regex constant the "2.0"
   branch and the else branch match against, and the two length bounds;
 * `version.DEFAULT_VERSION`;
@@ -194,6 +194,7 @@ def translate(repo, out_path=None):
     t21 = _compiled_regex_text(props, "TYPE_21_REGEX", "stix2/properties.py")
     pfx = _compiled_regex_text(utils, "PREFIX_21_REGEX", "stix2/utils.py")
     pname = _compiled_regex_text(regn, "PROPERTY_NAME_REGEX", "stix2/registration.py", required=False)
+    extid = _compiled_regex_text(regn, "EXTENSION_DEFINITION_ID_REGEX", "stix2/registration.py", required=False)
     r20, relse, lo, hi = validate_type_shape(props)
     dv = default_version(vers)
     rows = builtin_registry(repo)
@@ -210,6 +211,8 @@ def translate(repo, out_path=None):
            "Definition PREFIX_21_REGEX_text : string := %s." % coq_string(pfx),
            "Definition PROPERTY_NAME_REGEX_text : option string := %s."
            % ("None" if pname is None else "Some %s" % coq_string(pname)),
+           "Definition EXTENSION_DEFINITION_ID_REGEX_text : option string := %s."
+           % ("None" if extid is None else "Some %s" % coq_string(extid)),
            "",
            "(* _validate_type: `if spec_version == \"2.0\": re.match(<vt_regex_20>) else: re.match(<vt_regex_else>)`,",
            "   then `len(type_) < vt_len_min or len(type_) > vt_len_max` raises *)",
@@ -228,7 +231,7 @@ def translate(repo, out_path=None):
     if out_path:
         with open(out_path, "w", encoding="utf-8") as f:
             f.write(text)
-    return text, {"rows": rows, "t20": t20, "t21": t21, "pfx": pfx, "pname": pname,
+    return text, {"rows": rows, "t20": t20, "t21": t21, "pfx": pfx, "pname": pname, "extid": extid,
                   "shape": [r20, relse, lo, hi], "default_version": dv}
 
 
